@@ -195,17 +195,18 @@ class ThermohydraulicsThermalSolver:
         if self.verbose:
             print("Solving timestep %i, discrete time %f" % (i, time))
         for j in range(self.miter):
-            previous_temps = np.array(
+            # Tubes may use different grids and abstractions: flatten each
+            previous_temps = np.concatenate(
                 [
-                    tube.quadrature_results["ghost_temperature"][i]
+                    np.ravel(tube.quadrature_results["ghost_temperature"][i])
                     for panel in self.receiver.panels.values()
                     for tube in panel.tubes.values()
                 ]
             )
             self.solve_metal(i, time, dt)
-            next_temps = np.array(
+            next_temps = np.concatenate(
                 [
-                    tube.quadrature_results["ghost_temperature"][i]
+                    np.ravel(tube.quadrature_results["ghost_temperature"][i])
                     for panel in self.receiver.panels.values()
                     for tube in panel.tubes.values()
                 ]
@@ -220,17 +221,17 @@ class ThermohydraulicsThermalSolver:
                     % (j, temp_max_diff, temp_max_rel_diff)
                 )
 
-            previous_fluid_temps = np.array(
+            previous_fluid_temps = np.concatenate(
                 [
-                    tube.axial_results["fluid_temperature"][i]
+                    np.ravel(tube.axial_results["fluid_temperature"][i])
                     for panel in self.receiver.panels.values()
                     for tube in panel.tubes.values()
                 ]
             )
             self.solve_fluid(i, time, dt)
-            next_fluid_temps = np.array(
+            next_fluid_temps = np.concatenate(
                 [
-                    tube.axial_results["fluid_temperature"][i]
+                    np.ravel(tube.axial_results["fluid_temperature"][i])
                     for panel in self.receiver.panels.values()
                     for tube in panel.tubes.values()
                 ]
